@@ -13,7 +13,7 @@
     [form_ok].  Control flow, runtime calls and bounds checks are not covered by this theorem:
     they are validated by execution (see DESIGN.md). *)
 From Coq Require Import ZArith List Bool Zdiv.
-From HPBF Require Import Cell Expr BC X86 X86Proofs X86Call X86CallProofs X86Mov X86MovProofs.
+From HPBF Require Import Cell IO Expr BC BCWf X86 X86Proofs X86Call X86CallProofs X86Mov X86MovProofs.
 Import ListNotations.
 Open Scope Z_scope.
 
@@ -48,6 +48,30 @@ Proof.
     exists d, dst; eexists; (split; [reflexivity|]); (split; [exact HD|]); (split; [reflexivity|]);
     (split; [exact PN|]); (split; [unfold eqm in *; rewrite V; exact HV|]); (split; [exact C|]); (split; [exact S|exact R]).
 Qed.
+
+(** the same in terms of the bytecode semantics [BC.v]: if the machine state represents the
+    bytecode state ([Rx]: cells at their offset from the tape pointer, temporaries in their register
+    or stack slot, modulo 2^w) then after the accepted code it represents the state after the
+    instruction ([bc_write] of the result [v] into the destination), for the destination and every
+    temporary whose register the code was not allowed to clobber.  ([bc_binop] is that [bc_write]
+    when no operand is read-and-clear: [binop_pure].) *)
+Theorem C03_arith_simulates_bytecode : forall w, 0 <= w <= 64 ->
+  forall i live code keep s st d (op : Z -> Z -> Z) (a b : option loc),
+  form_ok w i live code = true ->
+  (match i with
+   | Add d' a' b' => d = d' /\ a = Some a' /\ b = Some b' /\ op = (fun x y => x + y)
+   | Sub d' a' b' => d = d' /\ a = Some a' /\ b = Some b' /\ op = (fun x y => x - y)
+   | Mul d' a' b' => d = d' /\ a = Some a' /\ b = Some b' /\ op = (fun x y => x * y)
+   | Copy d' a' => d = d' /\ a = Some a' /\ b = None /\ op = (fun x _ => x)
+   | _ => False
+   end) ->
+  dst_ok d = true -> (forall t, d = Tmp t -> 0 <= t) ->
+  (forall l t, (a = Some l \/ b = Some l) -> l = Tmp t -> 0 <= t /\ keep t = true) ->
+  Rx w keep s st ->
+  forall v, eqm (2 ^ w) v (op (match a with Some l => fst (bc_read w s l) | None => 0 end)
+                              (match b with Some l => fst (bc_read w s l) | None => 0 end)) ->
+  Rx w (keep_after keep live d) (bc_write s d v) (xrun w code st).
+Proof. exact form_simulates. Qed.
 
 (** ** runtime-call templates ([Inp], [Out]) — exact 64-bit semantics with a stack and a call
     oracle ([X86Call.v]).  [st0]: any machine state at the start of the template with nothing
@@ -156,3 +180,4 @@ Print Assumptions C03_branch_template.
 Print Assumptions C03_mov_template.
 Print Assumptions C03_unsigned_probe.
 Print Assumptions C03_frame.
+Print Assumptions C03_arith_simulates_bytecode.
